@@ -27,7 +27,7 @@ pub fn replay(body: &Value, path: &str) -> ! {
 pub fn main(opts: &Opts) -> ! {
     let t0 = std::time::Instant::now();
     let (n, budget) = match opts.tier {
-        Tier::Quick => ((40_000.0 * opts.scale) as u64, 120.0),
+        Tier::Quick => ((100_000.0 * opts.scale) as u64, 120.0),
         Tier::Thorough => ((2_000_000.0 * opts.scale) as u64, 1800.0),
     };
     struct Acc {
